@@ -3,16 +3,18 @@
 package tls
 
 var VfHarnesses = map[string]func(){
-	"VerifC05KeyIdPath1":  VerifC05KeyIdPath1,
-	"VerifC05KeyIdPath2":  VerifC05KeyIdPath2,
-	"VerifC05NodeIdPath0": VerifC05NodeIdPath0,
-	"VerifC05NodeIdPath1": VerifC05NodeIdPath1,
-	"VerifC05NodeIdPath2": VerifC05NodeIdPath2,
-	"VerifC05NodeIdPath3": VerifC05NodeIdPath3,
-	"VerifC20Whole":       VerifC20Whole,
-	"VerifC20Malformed":   VerifC20Malformed,
-	"VerifC20Chunks20":    VerifC20Chunks20,
-	"VerifC20Lemma99":     VerifC20Lemma99,
-	"VerifC20Lemma267":    VerifC20Lemma267,
-	"VerifC20Chunks101":   VerifC20Chunks101,
+	"VerifC05KeyIdPath1":       VerifC05KeyIdPath1,
+	"VerifC05KeyIdPath2":       VerifC05KeyIdPath2,
+	"VerifC05NodeIdPath0":      VerifC05NodeIdPath0,
+	"VerifC05NodeIdPath1":      VerifC05NodeIdPath1,
+	"VerifC05NodeIdPath2":      VerifC05NodeIdPath2,
+	"VerifC05NodeIdPath3":      VerifC05NodeIdPath3,
+	"VerifC20Whole":            VerifC20Whole,
+	"VerifC20InterleavedFetch": VerifC20InterleavedFetch,
+	"VerifC20InterleavedAuth":  VerifC20InterleavedAuth,
+	"VerifC20Malformed":        VerifC20Malformed,
+	"VerifC20Chunks20":         VerifC20Chunks20,
+	"VerifC20Lemma99":          VerifC20Lemma99,
+	"VerifC20Lemma267":         VerifC20Lemma267,
+	"VerifC20Chunks101":        VerifC20Chunks101,
 }
